@@ -45,7 +45,8 @@ CLAIMS['C07'] = dict(
     design_ref='DESIGN.md §5 C07')
 CLAIMS['C08'] = dict(
     text='Proof: compute_impedance_matrix_loads adds, per (load, pulse), exactly -(g/m)*Z*1j on the diagonal (fold over loads and '
-         'pulses, doubled exactly on grounded pulses over ground); scalar lemma c = beta*Z_L and the Lean/Mathlib matrix lemma '
+         'pulses, doubled exactly on grounded pulses over ground; and, for any implementation, on a two-pulse model with a load attached twice to '
+         'one pulse); which pulses a load is attached to is the contract of register_load (unit of C17); scalar lemma c = beta*Z_L and the Lean/Mathlib matrix lemma '
          '(any dimension) give "feed impedance rises by exactly Z_L" and additivity; Laplace fold; RLC and trap coefficient '
          'constructors equal their circuit impedance at every frequency (symbolic R, L, C, f; an explicit C = 0 is no capacitor, no division by zero '
          'at a positive frequency); skin-effect and insulation (also with both loads built by the real constructor on two differently coated objects) '
